@@ -474,7 +474,13 @@ func (s *Server) handleConnReceiver(module *Module, crd *rsyncwire.CountingReade
 		// Descend into subdirectory (if requested),
 		// using the os.OpenRoot traversal-safe API.
 		if len(paths) == 1 && paths[0] != "/" {
-			subdir := strings.TrimPrefix(paths[0], "/")
+			// A trailing slash carries no meaning for the destination
+			// directory, and a name ending in a slash makes os.Root
+			// (as of Go 1.25.0) follow a symlink out of the module.
+			subdir := strings.Trim(paths[0], "/")
+			if subdir == "" {
+				subdir = "."
+			}
 			subRoot, err := rt.DestRoot.OpenRoot(subdir)
 			if err != nil {
 				if os.IsNotExist(err) {
